@@ -514,8 +514,13 @@ fn counts(h: &WmoHeader) -> String {
         h.n_materials, h.n_groups, h.n_portals, h.n_lights, h.n_doodad_names, h.n_doodad_defs, h.n_doodad_sets)
 }
 
-fn root_cmd(v: WmoVersion, seed: u64, a: &RootArgs) -> String {
-    let (obj, dnames) = match guard("BUILD", || Ok(build_root(v, seed, a))) { Ok(x) => x, Err(e) => return format!("W1={e}") };
+fn root_cmd(v: WmoVersion, seed: u64, a: &RootArgs, stale: bool) -> String {
+    let (mut obj, dnames) = match guard("BUILD", || Ok(build_root(v, seed, a))) { Ok(x) => x, Err(e) => return format!("W1={e}") };
+    if stale {
+        // the cached header counts no longer describe the lists (as after an edit): the writer must derive them
+        obj.header.n_materials += 2; obj.header.n_groups += 2; obj.header.n_portals += 2; obj.header.n_lights += 2;
+        obj.header.n_doodad_names += 2; obj.header.n_doodad_defs += 2; obj.header.n_doodad_sets += 2;
+    }
     let onames = format!("{}|{}|{}", names_hex(&obj.textures), names_hex(&obj.groups.iter().map(|g| g.name.clone()).collect::<Vec<_>>()), names_hex(&dnames));
     let w1 = match write_root("WRITE", &obj, v) {
         Ok(b) => b,
@@ -595,7 +600,7 @@ fn convgroup_cmd(from: WmoVersion, to: WmoVersion, seed: u64, a: &GroupArgs) -> 
     let conv = match guard("CONV", || WmoConverter::new().convert_group(&mut c, to, from).map_err(|e| e.to_string())) { Ok(()) => "OK".to_string(), Err(e) => e.replacen("CONV-", "", 1) };
     let lost = diff(&dump_group(&orig, Some(to)), &dump_group(&c, Some(to)));
     let ident = if from == to { (diff(&dump_group(&orig, None), &dump_group(&c, None)).is_empty() as u8).to_string() } else { "-".to_string() };
-    let tail = format!("KEPT={} LOST={} IDENT={ident}", lost.is_empty() as u8, show(&lost));
+    let tail = format!("KEPT={} LOST={} IDENT={ident} OFLAGS={:x} CFLAGS={:x}", lost.is_empty() as u8, show(&lost), orig.header.flags.bits(), c.header.flags.bits());
     let w = match write_group("WRITE", &c, to) { Ok(b) => b, Err(e) => return format!("CONV={conv} EQ=- DIFF={e} {tail} VIA=- W=-") };
     let (_, p, _) = parse_group_any(&w, c.header.group_index);
     match p {
@@ -613,7 +618,13 @@ fn main() {
             "root" => {
                 if t.len() < 13 { return "ERR args".to_string(); }
                 let (Some(v), Some(a)) = (version(t[1]), root_args(&t[3..])) else { return "ERR bad_version".to_string() };
-                root_cmd(v, num(t[2]), &a)
+                root_cmd(v, num(t[2]), &a, false)
+            }
+            // rootstale: like root, but the cached header counts of the object are stale
+            "rootstale" => {
+                if t.len() < 13 { return "ERR args".to_string(); }
+                let (Some(v), Some(a)) = (version(t[1]), root_args(&t[3..])) else { return "ERR bad_version".to_string() };
+                root_cmd(v, num(t[2]), &a, true)
             }
             "group" => {
                 if t.len() < 10 { return "ERR args".to_string(); }
